@@ -337,7 +337,7 @@ func c13RunOne(c *Ctx, spec *c13TASpec, prepostFile string) *c13TARes {
 				preJ = j
 				c13RecordLeaves(spec.Mapped, j, res.Params, mon)
 			}
-			if spec.Mapped == "map" && os.Getenv("TA_LOG") == "" {
+			if os.Getenv("TA_LOG") == "" {
 				util.SetPrintLogger(lg)
 			}
 			switch spec.Fault {
@@ -377,13 +377,16 @@ func c13RunOne(c *Ctx, spec *c13TASpec, prepostFile string) *c13TARes {
 			}
 		}, func() {
 			// PostProcess has returned; the pipestance is still locked
-			if spec.Mapped == "map" && os.Getenv("TA_LOG") == "" {
+			if os.Getenv("TA_LOG") == "" {
 				util.SetPrintLogger(devNullLogger{})
-				if preJ != nil && preJ.K == 'O' {
+				if spec.Mapped == "map" && preJ != nil && preJ.K == 'O' {
 					res.Order, _ = c13ForkOrder(lg.sb.String(), preJ.Keys)
 				}
 				if i := strings.Index(lg.sb.String(), "Could not move output files:"); i >= 0 {
-					res.PostErr = c13Short(lg.sb.String()[i:])
+					res.PostErr = lg.sb.String()[i:]
+					if len(res.PostErr) > 3000 {
+						res.PostErr = res.PostErr[:3000]
+					}
 				}
 			}
 			switch spec.Fault {
@@ -469,9 +472,23 @@ func c13Finish(res *c13TARes, spec *c13TASpec, mon *c13Mon, preJ *c13J, cs *c13C
 		res.ParseErr = err.Error()
 		return
 	}
-	c13WalkRecords(spec.Mapped, res.Params, mon, preJ, postJ, psDir)
-	if spec.Mapped == "map" {
-		c13MappedOwnLocation(res.Params, mon, preJ, postJ, psDir)
+	if spec.Mapped == "map" && preJ.K == 'O' && postJ.K == 'O' {
+		// since the F24 repair: forks whose key is not a legal file name are refused (entry unchanged)
+		legalPre, legalPost := &c13J{K: 'O'}, &c13J{K: 'O'}
+		for i, k := range preJ.Keys {
+			if c13LegalKey(k) {
+				legalPre.Keys, legalPre.Vals = append(legalPre.Keys, k), append(legalPre.Vals, preJ.Vals[i])
+				if pv := postJ.get(k); pv != nil {
+					legalPost.Keys, legalPost.Vals = append(legalPost.Keys, k), append(legalPost.Vals, pv)
+				}
+			} else if pv := postJ.get(k); pv == nil || pv.canon() != preJ.Vals[i].canon() {
+				mon.failf("refused fork key %q: its record entry was changed or dropped", k)
+			}
+		}
+		c13WalkRecords("map", res.Params, mon, legalPre, legalPost, psDir)
+		c13MappedOwnLocation(res.Params, mon, legalPre, legalPost, psDir)
+	} else {
+		c13WalkRecords(spec.Mapped, res.Params, mon, preJ, postJ, psDir)
 	}
 	res.Fails = mon.fails
 	res.Alias = mon.alias
@@ -923,7 +940,29 @@ func c13CompareAll(c *Ctx, r *Result, specs []*c13TASpec, results []*c13TARes, c
 			if pj, err := c13ParseJSON([]byte(res.PreOuts)); err == nil && pj.K == 'O' {
 				outsRoot := filepath.Join(res.PsDir, "outs")
 				dirs, class := c13KeyDirsGo(outsRoot, pj.Keys)
-				keyClass = class
+				keyClass = "separable" // distinct legal keys; the others are refused since the F24 repair
+				var illegal []string
+				for _, k := range pj.Keys {
+					if !c13LegalKey(k) {
+						illegal = append(illegal, k)
+					}
+				}
+				if len(illegal) > 0 {
+					r.hist("tierA:mapped:map:has-illegal-key")
+					silent := false
+					for _, k := range illegal {
+						if !strings.Contains(res.PostErr, fmt.Sprintf("%q", k)) {
+							silent = true
+						}
+					}
+					if silent {
+						r.violate(Violation{Kind: "property", Key: "C13:mapped-illegal-key",
+							What:  fmt.Sprintf("top-level call mapped over a typed map: fork keys %q are not legal file names, but post-processing reported no error naming them", illegal),
+							Input: input, Impl: strip(res.PostErr), Expect: "an error naming every such key (mapped_illegal_key_is_refused)"})
+					} else {
+						r.hist("tierA:mapped:map:illegal-key-refused-with-error")
+					}
+				}
 				r.hist("tierA:mapped:map:keys:" + class)
 				if spec.Keys != nil {
 					c13CheckKeyDirs(c, r, outsRoot, pj.Keys, dirs, class)
@@ -947,6 +986,20 @@ func c13CompareAll(c *Ctx, r *Result, specs []*c13TASpec, results []*c13TARes, c
 		if err != nil {
 			r.note("tier A: pre-post-process _outs unreadable: %v", err)
 			continue
+		}
+		if ks := c13UnverifiedForkKeys(spec.Mapped, res, pre); len(ks) > 0 && len(res.Fails) > 0 {
+			// F25 (repaired): a fork key of a map call that became a key of a typed-map OUTPUT and is not a
+			// legal file name: the entry is dropped, and post-processing must REPORT it
+			reported := true
+			for _, k := range ks {
+				if !strings.Contains(res.PostErr, fmt.Sprintf("%q", k)) {
+					reported = false
+				}
+			}
+			if reported {
+				r.hist("tierA:illegal-fork-key-in-output:error-reported")
+				res.Fails = nil
+			}
 		}
 		if len(res.Fails) > 0 {
 			key := c13CrashKey(res, "C13:materialise")
